@@ -132,6 +132,102 @@ theorem param_mismatch_rejected_extensions (k : Kind) (oldIds newIds : List Nat)
   have h5' : ¬ (k = .reinit ∧ got.groupId ≠ expected.groupId) := fun ⟨a, b⟩ => b (h5 a)
   simp [joinChecks, h1, h2, h3, h4, h5', h]
 
+/-! #### the error class, exactly: each class is reported precisely when every earlier check passes and this one fails
+(`join`: subset check first, then version, suite, epoch, group id, extensions) -/
+
+theorem joinChecks_notASubgroup_iff (k : Kind) (oldIds newIds : List Nat) (expected got : Params) :
+    joinChecks k oldIds newIds expected got = .error .notASubgroup ↔
+      checkSubgroup k oldIds newIds = false := by
+  unfold joinChecks
+  cases h : checkSubgroup k oldIds newIds
+  · simp
+  · simp only [Bool.not_true, Bool.false_eq_true, if_false]
+    repeat' split
+    all_goals simp
+
+theorem joinChecks_version_iff (k : Kind) (oldIds newIds : List Nat) (expected got : Params) :
+    joinChecks k oldIds newIds expected got = .error .protocolVersionMismatch ↔
+      checkSubgroup k oldIds newIds = true ∧ got.version ≠ expected.version := by
+  unfold joinChecks
+  cases h : checkSubgroup k oldIds newIds
+  · simp
+  · simp only [Bool.not_true, Bool.false_eq_true, if_false]
+    repeat' split
+    all_goals simp_all
+
+theorem joinChecks_suite_iff (k : Kind) (oldIds newIds : List Nat) (expected got : Params) :
+    joinChecks k oldIds newIds expected got = .error .cipherSuiteMismatch ↔
+      checkSubgroup k oldIds newIds = true ∧ got.version = expected.version ∧
+      got.suite ≠ expected.suite := by
+  unfold joinChecks
+  cases h : checkSubgroup k oldIds newIds
+  · simp
+  · simp only [Bool.not_true, Bool.false_eq_true, if_false]
+    repeat' split
+    all_goals simp_all
+
+theorem joinChecks_epoch_iff (k : Kind) (oldIds newIds : List Nat) (expected got : Params) :
+    joinChecks k oldIds newIds expected got = .error .initialEpochNotOne ↔
+      checkSubgroup k oldIds newIds = true ∧ got.version = expected.version ∧
+      got.suite = expected.suite ∧ got.epoch ≠ 1 := by
+  unfold joinChecks
+  cases h : checkSubgroup k oldIds newIds
+  · simp
+  · simp only [Bool.not_true, Bool.false_eq_true, if_false]
+    repeat' split
+    all_goals simp_all
+
+theorem joinChecks_groupId_iff (k : Kind) (oldIds newIds : List Nat) (expected got : Params) :
+    joinChecks k oldIds newIds expected got = .error .groupIdMismatch ↔
+      checkSubgroup k oldIds newIds = true ∧ got.version = expected.version ∧
+      got.suite = expected.suite ∧ got.epoch = 1 ∧ k = .reinit ∧ got.groupId ≠ expected.groupId := by
+  unfold joinChecks
+  cases h : checkSubgroup k oldIds newIds
+  · simp
+  · simp only [Bool.not_true, Bool.false_eq_true, if_false]
+    repeat' split
+    all_goals simp_all
+
+theorem joinChecks_extensions_iff (k : Kind) (oldIds newIds : List Nat) (expected got : Params) :
+    joinChecks k oldIds newIds expected got = .error .reInitExtensionsMismatch ↔
+      checkSubgroup k oldIds newIds = true ∧ got.version = expected.version ∧
+      got.suite = expected.suite ∧ got.epoch = 1 ∧
+      (k = .reinit → got.groupId = expected.groupId) ∧ got.extensions ≠ expected.extensions := by
+  unfold joinChecks
+  cases h : checkSubgroup k oldIds newIds
+  · simp
+  · simp only [Bool.not_true, Bool.false_eq_true, if_false]
+    repeat' split
+    all_goals simp_all
+
+/-- what an accepted Welcome guarantees about the three parameters the harness deviates in: the announced version and
+suite, and epoch 1 -/
+theorem join_ok_version_suite_epoch (k : Kind) (oldIds newIds : List Nat) (expected got : Params)
+    (h : joinChecks k oldIds newIds expected got = .ok ()) :
+    got.version = expected.version ∧ got.suite = expected.suite ∧ got.epoch = 1 :=
+  let ⟨_, hv, hs, he, _, _⟩ := (joinChecks_ok_iff k oldIds newIds expected got).1 h
+  ⟨hv, hs, he⟩
+
+/-- a creator that makes `n ≥ 1` commits in the new group before the one that adds the members produces a Welcome for
+epoch `1 + n`: refused whatever else is right, unless an earlier check already fails -/
+theorem late_welcome_rejected (k : Kind) (oldIds newIds : List Nat) (expected got : Params) (n : Nat)
+    (hn : 0 < n) (he : got.epoch = 1 + n) : joinChecks k oldIds newIds expected got ≠ .ok () := by
+  intro h
+  have := (join_ok_version_suite_epoch k oldIds newIds expected got h).2.2
+  omega
+
+/-- a successor of another cipher suite is never joined, and the class is one of the first three -/
+theorem other_suite_rejected (k : Kind) (oldIds newIds : List Nat) (expected got : Params)
+    (hs : got.suite ≠ expected.suite) :
+    joinChecks k oldIds newIds expected got = .error .notASubgroup ∨
+    joinChecks k oldIds newIds expected got = .error .protocolVersionMismatch ∨
+    joinChecks k oldIds newIds expected got = .error .cipherSuiteMismatch := by
+  cases h1 : checkSubgroup k oldIds newIds
+  · exact .inl ((joinChecks_notASubgroup_iff ..).2 h1)
+  · by_cases h2 : got.version = expected.version
+    · exact .inr (.inr ((joinChecks_suite_iff ..).2 ⟨h1, h2, hs⟩))
+    · exact .inr (.inl ((joinChecks_version_iff ..).2 ⟨h1, h2⟩))
+
 /-- a branch does not look at the group id -/
 theorem branch_ignores_groupId (oldIds newIds : List Nat) (expected got : Params) (g : Nat) :
     joinChecks .branch oldIds newIds expected { got with groupId := g } =
@@ -144,6 +240,52 @@ theorem branch_ignores_groupId (oldIds newIds : List Nat) (expected got : Params
 theorem frozen_after_reinit : commitAllowed true = false := rfl
 
 theorem not_frozen_before_reinit : commitAllowed false = true := rfl
+
+/-- frozen: every way of building or processing a commit is refused with `GroupUsedAfterReInit` -/
+theorem frozen_refuses_every_commit (e : CommitEntry) :
+    commitVerdict true e = .error .groupUsedAfterReInit := rfl
+
+theorem commitVerdict_ok_iff (p : Bool) (e : CommitEntry) :
+    commitVerdict p e = .ok () ↔ p = false := by
+  cases p <;> simp [commitVerdict, commitAllowed]
+
+/-- a refused attempt changes nothing -/
+theorem attempt_refused_unchanged (g : OldGroup) (e : CommitEntry) (r : Bool)
+    (h : (g.attempt e r).2 = false) : (g.attempt e r).1 = g := by
+  unfold OldGroup.attempt at *
+  cases hv : commitVerdict g.pendingReinit e <;> simp_all
+
+/-- the commit that carries the ReInit freezes the group -/
+theorem reinit_commit_freezes (g : OldGroup) (e : CommitEntry) (h : g.pendingReinit = false) :
+    (g.attempt e true).1.pendingReinit = true ∧ (g.attempt e true).2 = true := by
+  simp [OldGroup.attempt, commitVerdict, commitAllowed, h]
+
+/-- once frozen, always frozen: whatever commits are attempted afterwards (built or received, with or without a further
+ReInit), each is refused and the state stays what it was -/
+theorem frozen_forever (g : OldGroup) (h : g.pendingReinit = true)
+    (attempts : List (CommitEntry × Bool)) :
+    (g.run attempts).1 = g ∧ ∀ ok, ok ∈ (g.run attempts).2 → ok = false := by
+  induction attempts with
+  | nil => simp [OldGroup.run]
+  | cons a rest ih =>
+    obtain ⟨e, r⟩ := a
+    have h1 : g.attempt e r = (g, false) := by
+      simp [OldGroup.attempt, commitVerdict, commitAllowed, h]
+    simp only [OldGroup.run, h1]
+    refine ⟨ih.1, fun ok hok => ?_⟩
+    rcases List.mem_cons.1 hok with rfl | hmem
+    · rfl
+    · exact ih.2 ok hmem
+
+/-- a history: some ordinary commits, the re-init commit, then any attempts: the old group ends at the epoch after the
+re-init commit -/
+theorem epoch_stops_after_reinit (g : OldGroup) (e : CommitEntry) (h : g.pendingReinit = false)
+    (attempts : List (CommitEntry × Bool)) :
+    (g.run ((e, true) :: attempts)).1 = { epoch := g.epoch + 1, pendingReinit := true } := by
+  have h1 : g.attempt e true = ({ epoch := g.epoch + 1, pendingReinit := true }, true) := by
+    simp [OldGroup.attempt, commitVerdict, commitAllowed, h]
+  simp only [OldGroup.run, h1]
+  exact (frozen_forever _ rfl attempts).1
 
 /-! ### the defect that was fixed -/
 
@@ -200,6 +342,18 @@ example : joinChecks .reinit [1, 2] [2, 1] ⟨1, 3, 0, 77, 5⟩ ⟨1, 3, 1, 78, 
     .error .groupIdMismatch := rfl
 example : joinChecks .reinit [1, 2] [2, 1] ⟨1, 3, 0, 77, 5⟩ ⟨1, 3, 1, 77, 6⟩ =
     .error .reInitExtensionsMismatch := rfl
+-- the deviations the harness constructs (announced suite 1, successor of suite 3, Welcome for epoch 2 ...)
+example : joinChecks .reinit [1, 2] [2, 1] ⟨1, 1, 0, 0, 0⟩ ⟨1, 3, 2, 1, 1⟩ = .error .cipherSuiteMismatch := rfl
+example : joinChecks .reinit [1, 2] [2, 1] ⟨1, 1, 0, 0, 0⟩ ⟨1, 1, 3, 1, 1⟩ = .error .initialEpochNotOne := rfl
+example : joinChecks .branch [1, 2] [2] ⟨1, 1, 0, 0, 0⟩ ⟨2, 3, 4, 1, 0⟩ = .error .protocolVersionMismatch := rfl
+example : joinChecks .branch [1, 2] [2] ⟨1, 1, 0, 0, 0⟩ ⟨1, 1, 2, 1, 0⟩ = .error .initialEpochNotOne := rfl
+-- `late_welcome_rejected`, `other_suite_rejected`: hypotheses satisfiable
+example : (0 < 1) ∧ (⟨1, 1, 2, 0, 0⟩ : Params).epoch = 1 + 1 := by decide
+-- freeze
+example : commitVerdict false .build = .ok () ∧ commitVerdict true .process = .error .groupUsedAfterReInit :=
+  ⟨rfl, rfl⟩
+example : (OldGroup.run ⟨4, false⟩ [(.build, false), (.process, true), (.build, false), (.process, true)]) =
+    (⟨6, true⟩, [true, true, false, false]) := by decide
 -- error precedence: everything wrong at once reports the membership first
 example : joinChecks .reinit [1, 2] [2, 3] ⟨1, 3, 0, 77, 5⟩ ⟨2, 4, 2, 78, 6⟩ = .error .notASubgroup := rfl
 
